@@ -56,6 +56,21 @@ for _b in (list, tuple, set, dict, str, int):
         NESTED[(_b, _mod)] = _c
 
 
+# subclasses defined in a module whose name starts with an underscore (private modules, C accelerator modules): printed with the
+# module name exactly as it is
+import types as _types
+_private = _types.ModuleType('_verif_private')
+sys.modules.setdefault('_verif_private', _private)
+_private = sys.modules['_verif_private']
+for _b in (list, tuple, dict, str, int, set):
+    _n = 'P' + _b.__name__.capitalize()
+    if not hasattr(_private, _n):
+        _c = type(_n, (_b,), {})
+        _c.__module__ = '_verif_private'
+        _c.__qualname__ = _n
+        setattr(_private, _n, _c)
+    NESTED[(_b, '_verif_private')] = getattr(_private, _n)
+
 # the classes that claim to live in `__main__` must be found there (pickling between worker processes, evaluation of printed text)
 if not hasattr(sys.modules['__main__'], 'Geometry'):
     sys.modules['__main__'].Geometry = Geometry
@@ -63,8 +78,8 @@ if not hasattr(sys.modules['__main__'], 'Geometry'):
 
 def make(rng, base, value):
     """an instance of a random subclass of `base` holding `value`"""
-    if rng.random() < 0.12 and (base, '__main__') in NESTED:
-        return NESTED[(base, rng.choice(['__main__', __name__]))](value)
+    if rng.random() < 0.15 and (base, '__main__') in NESTED:
+        return NESTED[(base, rng.choice(['__main__', __name__, '_verif_private']))](value)
     cls = FAMILY[(base, rng.choice(['plain', 'plain', 'repr', 'str', 'both']))]
     return cls(value)
 
